@@ -7,6 +7,7 @@ import FDAProofs.Lemmas.Quadrature
 import Mathlib.Tactic.IntervalCases
 import Mathlib.Tactic.NormNum
 import Mathlib.Algebra.Order.Chebyshev
+import Mathlib.Data.Rat.Floor
 
 namespace FDA
 open Finset
@@ -104,5 +105,27 @@ theorem list_sum_map_range (N : ℕ) (f : ℕ → ℚ) :
   | zero => simp
   | succ n ih =>
     rw [List.range_succ, List.map_append, List.sum_append, ih, Finset.sum_range_succ]; simp
+
+/-! rounding half to even (`np.round`) stays within 1/2 of its argument -/
+
+theorem floor_le' (x : ℚ) : ((x.floor : ℤ) : ℚ) ≤ x := Rat.le_floor_iff.mp le_rfl
+theorem lt_floor_add_one' (x : ℚ) : x < ((x.floor : ℤ) : ℚ) + 1 := by
+  by_contra h
+  have h' : ((x.floor + 1 : ℤ) : ℚ) ≤ x := by push_cast; linarith [not_lt.mp h]
+  have := Rat.le_floor_iff.mpr h'
+  omega
+theorem roundHalfEven_near (x : ℚ) (hx : 0 ≤ x) :
+    (roundHalfEven x : ℚ) ≤ x + 1 / 2 ∧ x - 1 / 2 ≤ (roundHalfEven x : ℚ) := by
+  have h0 : 0 ≤ x.floor := Rat.le_floor_iff.mpr (by simpa using hx)
+  have hf : ((x.floor.toNat : ℕ) : ℚ) = ((x.floor : ℤ) : ℚ) := by
+    have : ((x.floor.toNat : ℕ) : ℤ) = x.floor := Int.toNat_of_nonneg h0
+    exact_mod_cast this
+  have h1 := floor_le' x
+  have h2 := lt_floor_add_one' x
+  unfold roundHalfEven
+  simp only
+  rw [hf]
+  split_ifs <;> (constructor <;> push_cast <;> (try rw [hf]) <;> linarith)
+
 
 end FDA
